@@ -13,7 +13,7 @@ pub fn meta(ctx: &Ctx) -> Meta {
             if ctx.tier.thorough() { " and dyadic data, and ReLU" } else { "" }, if ctx.tier.thorough() { 3 } else { 2 }, 3, if ctx.tier.thorough() { 2 } else { 1 }),
         bound: "kernel <= 3, stride <= 2 (3 pool), padding <= 2, dilation <= 2, planes <= 6x7, depth <= 3".into(),
         exhaustive: true,
-        assumptions: vec!["comparison tolerance 2e-6 * max|reference| per tensor (bit-exact agreement is counted separately); flat-vs-CxHxW differential is bit-exact".into()],
+        assumptions: vec!["comparison tolerance 2e-6 * max|reference| per tensor for linear/ReLU networks and 1e-4 * max|reference| when a leaky ReLU, sigmoid, tanh or soft-max is present (bit-exact agreement is counted separately); flat-vs-CxHxW differential is bit-exact".into()],
     }
 }
 
@@ -46,7 +46,7 @@ pub fn val_parse(s: &str) -> Valuation {
     }
 }
 
-fn cmp(lib: &[f32], reff: &[f64]) -> Result<bool, String> {
+fn cmp(lib: &[f32], reff: &[f64], tol: f64) -> Result<bool, String> {
     if lib.len() != reff.len() {
         return Err(format!("{} elements, reference has {}", lib.len(), reff.len()));
     }
@@ -58,7 +58,7 @@ fn cmp(lib: &[f32], reff: &[f64]) -> Result<bool, String> {
         }
         if (lib[i] as f64) != reff[i] {
             exact = false;
-            if (lib[i] as f64 - reff[i]).abs() > 2e-6 * scale {
+            if (lib[i] as f64 - reff[i]).abs() > tol * scale {
                 return Err(format!("element {}: {:e}, reference {:e}", i, lib[i], reff[i]));
             }
         }
@@ -142,10 +142,14 @@ pub fn check_net(net: &Net, val: Valuation, flat_in: bool, seed: u64, case: &Kv,
         rep.violate("C02 forward returns wrong number of tensors", format!("{} pre / {} post for {} layers", run.pre.len(), run.post.len(), net.layers.len()), case);
         return;
     }
+    // exact-arithmetic networks (linear / ReLU on dyadic or integer data) get the tight tolerance; leaky ReLU (slope
+    // 0.01 is not dyadic), sigmoid and tanh chains amplify single-precision rounding to ~1e-5 relative
+    let smooth = net.name().contains("leaky") || net.name().contains("sigmoid") || net.name().contains("tanh") || net.name().contains("softmax");
+    let tol = if smooth { 1e-4 } else { 2e-6 };
     let mut all_exact = true;
     for i in 0..net.layers.len() {
         if !matches!(net.layers[i], L::Fb { .. }) {
-            match cmp(&run.pre[i].1, &tr.layers[i].pre) {
+            match cmp(&run.pre[i].1, &tr.layers[i].pre, tol) {
                 Ok(e) => all_exact &= e,
                 Err(e) => {
                     rep.violate(layer_key(net, &shapes, i, flat_in, "pre-activation"), format!("{} layer {}: {}", net.name(), i, e), case);
@@ -153,7 +157,7 @@ pub fn check_net(net: &Net, val: Valuation, flat_in: bool, seed: u64, case: &Kv,
                 }
             }
         }
-        match cmp(&run.post[i + 1].1, &tr.activated[i + 1]) {
+        match cmp(&run.post[i + 1].1, &tr.activated[i + 1], tol) {
             Ok(e) => all_exact &= e,
             Err(e) => {
                 rep.violate(layer_key(net, &shapes, i, flat_in, "output"), format!("{} layer {}: {}", net.name(), i, e), case);
